@@ -61,7 +61,7 @@ pub type BlsResult<T> = Result<T, BlsError>;
 pub fn debug_assert_failed() requires false { }
 
 // ----- byte containers (E3) ---------------------------------------------------------------------
-pub axiom fn axiom_slice_len(s: &[u8]) ensures s@.len() <= isize::MAX;
+pub broadcast axiom fn axiom_slice_len(s: &[u8]) ensures #[trigger] s@.len() <= isize::MAX;
 pub trait AsRefBytes {
     spec fn bytes(&self) -> Seq<u8>;
     /// ASSUMED [L-STD]: no Rust allocation exceeds isize::MAX bytes
